@@ -1,4 +1,6 @@
-import FitProps.C17Defs
+import FitProps.C17DefsBt
+import FitModel.Generated.ProfileStrs
+import FitModel.Generated.ProfileTypes
 /-! Kernel evaluations for `FitProps/C17.lean` (the statements and what they mean are documented there). -/
 namespace Fit.C17.Lemmas
 open Fit.ProfileSpec Fit.Gen Fit.C17
